@@ -79,6 +79,8 @@ def cases(tier, seed):
         for solver in ("ScipyIVP", "ScipyDAE"):
             out.append({"kind": "unsupported_contacts", "solver": solver, "rep": r})
             out.append({"kind": "unsupported_friction", "solver": solver, "rep": r})
+        for solver in ("DualStormerVerlet", "Newton", "Riks", "Moreau", "Rattle"):
+            out.append({"kind": "actuators", "solver": solver, "rep": r})
             out.append({"kind": "nan_rhs", "solver": solver, "rep": r})
     return out
 
@@ -408,6 +410,49 @@ def run_case(spec, ctx):
             ctx.violation(f"{spec['solver']}", "solver that cannot treat unilateral contacts ran on a contact system without warning or error",
                           {**det, "warnings": msgs[:3], "final_gap": gN})
         ctx.cls(f"unsupported:{spec['solver']}:{'raised' if err else 'warned'}")
+        consumed = True
+    elif kind == "actuators":
+        # a motor on a revolute joint: a solver either accounts for the actuator force (the body is driven) or says that it does not
+        from cardillo import System
+        from cardillo.discrete import RigidBody
+        from cardillo.constraints import Revolute
+        from cardillo.actuators import Motor
+        from cardillo.force_laws import Spring
+        with gen.quiet():
+            S = System()
+            body = RigidBody(1.0, np.diag([0.1, 0.2, 0.3]), q0=np.array([0.5, 0, 0, 1, 0, 0, 0.0]), u0=np.zeros(6), name="rotor")
+            j = Revolute(S.origin, body, 2, r_OJ0=np.zeros(3), A_IJ0=np.eye(3), name="hinge")
+            torque = float(rng.uniform(0.5, 3))
+            S.add(body, j, Motor(j, torque), Spring(j, 5.0, l_ref=0.0, compliance_form=False, name="return_spring"))
+            S.assemble()
+        buf = io.StringIO()
+        with warnings.catch_warnings(record=True) as wlist, contextlib.redirect_stdout(buf), contextlib.redirect_stderr(buf):
+            warnings.simplefilter("always")
+            err = None
+            try:
+                if spec["solver"] == "Newton":
+                    sol = sv.Newton(S, n_load_steps=3, verbose=False).solve()
+                elif spec["solver"] == "Riks":
+                    sol = sv.Riks(S, la_arc0=0.05, la_arc_span=[0.0, 1.0], iter_goal=3).solve()
+                elif spec["solver"] == "DualStormerVerlet":
+                    sol = sv.DualStormerVerlet(S, 0.2, DT, linear_solver="LU").solve()
+                else:
+                    sol = getattr(sv, spec["solver"])(S, 0.2, DT).solve()
+            except Exception as e:
+                err = e
+        ctx.mon("outcome")
+        msgs = [str(w.message) for w in wlist]
+        if err is None:
+            j.reset()
+            ang = float(j.l(sol.t[-1], np.asarray(sol.q[-1])[j.qDOF]))
+            driven = abs(ang) > 1e-4 * torque
+            said = any("actuator" in m.lower() for m in msgs)
+            if not driven and not said:
+                ctx.violation(f"{spec['solver']}", "solver ignored the actuator force of the system (the driven body did not move) without warning or error",
+                              {**det, "torque": torque, "final_angle": ang, "warnings": msgs[:3]})
+            ctx.cls(f"actuators:{spec['solver']}:{'driven' if driven else 'ignored_with_warning' if said else 'ignored_silently'}")
+        else:
+            ctx.cls(f"actuators:{spec['solver']}:raised")
         consumed = True
     elif kind == "unsupported_friction":
         from cardillo import System
